@@ -16,10 +16,17 @@ HasS(K, c) == \E sp \in K : sp.kind = "simple" /\ sp.n = c
 \* the format contains the conversion %c handed to the C library (an unescaped '%' directly followed by c)
 RECURSIVE BackRun(_, _)
 BackRun(s, i) == IF i >= 1 /\ s[i] = 37 THEN 1 + BackRun(s, i - 1) ELSE 0
+ConvE(fmt, c) == \E i \in 1..(Len(fmt) - 2) : fmt[i] = 37 /\ fmt[i + 1] = 69 /\ fmt[i + 2] = c /\ BackRun(fmt, i) % 2 = 1
+EYFirst(fmt) == LET p == CHOOSE i \in 1..(Len(fmt) - 2) : fmt[i] = 37 /\ fmt[i + 1] = 69 /\ fmt[i + 2] = 89 /\ BackRun(fmt, i) % 2 = 1 IN
+                \A j \in 1..(Len(fmt) - 1) : (fmt[j] = 37 /\ fmt[j + 1] \in {117, 119, 97, 65} /\ BackRun(fmt, j) % 2 = 1) => j > p
 Conv(fmt, c) == \E i \in 1..(Len(fmt) - 1) : fmt[i] = 37 /\ fmt[i + 1] = c /\ BackRun(fmt, i) % 2 = 1
 Lossless(fmt, cs, off) ==
   LET K == Kinds(fmt) IN
-     /\ (HasS(K, 89) \/ ((\E sp \in K : sp.kind = "E4Y") /\ WLe(W(-999), cs[1]) /\ WLe(cs[1], W(9999))))
+     /\ (HasS(K, 89) \/ ((\E sp \in K : sp.kind = "E4Y") /\ WLe(W(-999), cs[1]) /\ WLe(cs[1], W(9999)))
+            \* %EY: the C library's year, four digits.  A date-like specifier handed to strptime after a weekday field makes the C
+            \* library recompute the weekday from stale fields (left open): with a week number %EY must come before every weekday field
+            \/ (ConvE(fmt, 89) /\ WLe(W(1000), cs[1]) /\ WLe(cs[1], W(9999))
+                /\ (~(HasS(K, 85) \/ HasS(K, 87)) \/ EYFirst(fmt))))
      /\ \/ (HasS(K, 109) /\ (HasS(K, 100) \/ HasS(K, 101)))                 \* %m with %d | %e
         \/ ((HasS(K, 85) \/ HasS(K, 87)) /\ (HasS(K, 117) \/ HasS(K, 119) \/ Conv(fmt, 97) \/ Conv(fmt, 65))) \* week number with weekday (number or name)
      /\ ((HasS(K, 72) \/ (Conv(fmt, 73) /\ Conv(fmt, 112))) /\ HasS(K, 77))   \* (%H | %I with %p, in either order) %M
